@@ -102,3 +102,112 @@ Theorem C05_bytes_array_values : forall v, wfb v = true -> top_ok v ->
   array_values_w (enc v) = Ok (option_map (map enc) (array_values_t v)).
 Proof. exact array_values_w_enc. Qed.
 Print Assumptions C05_bytes_array_values.
+
+(* ---- the scalar accessors, the casts, type_of and traverse_check_string as byte readers (CastWalk.v): the header
+   word at 0, the entry word at 4, the payload slice value[8 .. 8 + length] (out of bounds = panic), Number::decode on
+   the slice, from_utf8_unchecked bytes, the to_* casts calling as_* in the code's order; traverse_check_string with
+   its queue of container offsets, its entry loop and its payload slices.  On the encoding of any well-formed v each
+   one returns the tree answer: no early return, no error, no panic. *)
+From JB Require Import Decimal CastWalk CastWalkProofs.
+
+Theorem C05_casts_read_the_document_w : forall v, wfb v = true -> top_ok v ->
+  as_null_w (enc v) = Ok (match normalise v with VNull => true | _ => false end) /\
+  as_bool_w (enc v) = Ok (as_bool_t (normalise v)) /\
+  as_number_w (enc v) = Ok (as_number_t (normalise v)) /\
+  as_i64_w (enc v) = Ok (as_i64_t (normalise v)) /\
+  as_u64_w (enc v) = Ok (as_u64_t (normalise v)) /\
+  as_f64_w (enc v) = Ok (as_f64_t (normalise v)) /\
+  as_str_w (enc v) = Ok (as_str_t (normalise v)) /\
+  is_array_w (enc v) = Ok (match normalise v with VArr _ => true | _ => false end) /\
+  is_object_w (enc v) = Ok (match normalise v with VObj _ => true | _ => false end) /\
+  to_bool_w (enc v) = match to_bool_t (normalise v) with Some b => Ok b | None => Err EOther end /\
+  to_i64_w (enc v) = match to_i64_t (normalise v) with Some z => Ok z | None => Err EOther end /\
+  to_u64_w (enc v) = match to_u64_t (normalise v) with Some n => Ok n | None => Err EOther end /\
+  to_f64_w (enc v) = match to_f64_t (normalise v) with Some x => Ok x | None => Err EOther end /\
+  to_str_w (enc v) = match to_str_t (normalise v) with Some s => Ok s | None => Err EOther end.
+Proof.
+  intros v Hwf Htop. repeat split.
+  - exact (as_null_w_enc v Hwf Htop).
+  - exact (as_bool_w_enc v Hwf Htop).
+  - exact (as_number_w_enc v Hwf Htop).
+  - exact (as_i64_w_enc v Hwf Htop).
+  - exact (as_u64_w_enc v Hwf Htop).
+  - exact (as_f64_w_enc v Hwf Htop).
+  - exact (as_str_w_enc v Hwf Htop).
+  - exact (is_array_w_enc v Hwf Htop).
+  - exact (is_object_w_enc v Hwf Htop).
+  - exact (to_bool_w_enc v Hwf Htop).
+  - exact (to_i64_w_enc v Hwf Htop).
+  - exact (to_u64_w_enc v Hwf Htop).
+  - exact (to_f64_w_enc v Hwf Htop).
+  - exact (to_str_w_enc v Hwf Htop).
+Qed.
+Print Assumptions C05_casts_read_the_document_w.
+
+Theorem C05_type_of_w : forall v, wfb v = true -> top_ok v -> type_of_w (enc v) = Ok (type_of_t (normalise v)).
+Proof. exact type_of_w_enc. Qed.
+Print Assumptions C05_type_of_w.
+
+(* any callback: the walker finds a string (key or value, at any depth) satisfying it exactly when the tree has one *)
+Theorem C05_traverse_check_string_b : forall v f, wfb v = true ->
+  traverse_check_string_b (enc v) f = Ok (traverse_check_string_t' v f).
+Proof. exact traverse_check_string_b_enc. Qed.
+Print Assumptions C05_traverse_check_string_b.
+
+Theorem C05_traverse_check_string_w : forall v needle, wfb v = true -> top_ok v ->
+  traverse_check_string_w (enc v) needle = Ok (traverse_check_string_t v needle).
+Proof. exact traverse_check_string_w_enc. Qed.
+Print Assumptions C05_traverse_check_string_w.
+
+(* instances: numbers of every payload width through the casts *)
+Example C05_cast_widths :
+  map (fun n => as_i64_w (enc (VNum n)))
+      [NUInt 0; NUInt 200; NInt (-129); NUInt 65535; NInt (-40000); NUInt 4294967296; NInt (-9223372036854775808);
+       NUInt 18446744073709551615; NFloat 4609434218613702656]
+  = [Ok (Some 0%Z); Ok (Some 200%Z); Ok (Some (-129)%Z); Ok (Some 65535%Z); Ok (Some (-40000)%Z); Ok (Some 4294967296%Z);
+     Ok (Some (-9223372036854775808)%Z); Ok None; Ok None] /\
+  map (fun n => lenN (enc (VNum n)))
+      [NUInt 0; NUInt 200; NInt (-129); NUInt 65535; NInt (-40000); NUInt 4294967296; NInt (-9223372036854775808);
+       NUInt 18446744073709551615; NFloat 4609434218613702656]
+  = [9; 10; 11; 11; 13; 17; 17; 17; 17] /\
+  as_u64_w (enc (VNum (NUInt 18446744073709551615))) = Ok (Some 18446744073709551615) /\
+  as_f64_w (enc (VNum (NFloat 4609434218613702656))) = Ok (Some 4609434218613702656) /\
+  to_i64_w (enc (VStr [45; 52; 50])) = Ok (-42)%Z /\
+  to_i64_w (enc (VBool true)) = Ok 1%Z /\
+  to_bool_w (enc (VStr [84; 82; 85; 69])) = Ok true /\
+  to_str_w (enc (VNum (NInt (-129)))) = Ok [45; 49; 50; 57] /\
+  to_u64_w (enc (VArr [])) = Err EOther /\
+  type_of_w (enc (VObj [([97], VNull)])) = Ok 5 /\
+  (* and off the encodings: a payload length that runs past the buffer is the panic of the index expression,
+     a number payload Number::decode rejects is None, a short buffer is None / an error *)
+  as_str_w [32; 0; 0; 0; 16; 0; 0; 5; 97] = Panic /\
+  as_number_w [32; 0; 0; 0; 32; 0; 0; 2; 255; 255] = Ok None /\
+  as_bool_w [32; 0; 0; 0; 48] = Ok None /\
+  type_of_w [32; 0; 0; 0; 48] = Err EOther.
+Proof. vm_compute. repeat split; reflexivity. Qed.
+
+(* a nested document: a string value two levels down, a key three levels down, misses, and the empty needle *)
+Definition c05_doc : value :=
+  VObj [([97], VArr [VNum (NUInt 1); VObj [([107], VStr [122; 122]); ([108], VArr [VObj [([100; 101; 101; 112], VNull)]])]; VStr []]);
+        ([98], VNull)].
+Example C05_traverse_example :
+  wfb c05_doc = true /\
+  traverse_check_string_w (enc c05_doc) [122] = Ok true /\
+  traverse_check_string_w (enc c05_doc) [100; 101] = Ok true /\
+  traverse_check_string_w (enc c05_doc) [98] = Ok true /\
+  traverse_check_string_w (enc c05_doc) [120] = Ok false /\
+  traverse_check_string_b (enc c05_doc) (bytes_eqb []) = Ok true /\
+  traverse_check_string_b (enc c05_doc) (bytes_eqb [122]) = Ok false /\
+  traverse_check_string_b (enc (VArr [VNull; VBool true])) (fun _ => true) = Ok false /\
+  (* off the encodings: a string entry whose payload runs past the buffer panics; an unknown header kind is unreachable!() *)
+  traverse_check_string_b [128; 0; 0; 1; 16; 0; 0; 5; 97] (fun _ => false) = Panic /\
+  traverse_check_string_b [128; 0; 0; 1; 80; 0; 0; 4; 160; 0; 0; 1] (fun _ => false) = Panic /\
+  traverse_check_string_b [128; 0; 0; 2; 80; 0; 0; 0] (fun _ => false) = Ok false.
+Proof. vm_compute. repeat split; reflexivity. Qed.
+
+(* on EVERY buffer, valid or not, the traversal model ends with a boolean or a panic: the recursion fuels of the model
+   (entry loop, level loop) are never what decides, so the model has no outcome the code does not have *)
+Theorem C05_traverse_check_string_fuel_is_enough : forall bs f,
+  (exists b, traverse_check_string_b bs f = Ok b) \/ traverse_check_string_b bs f = Panic.
+Proof. exact traverse_check_string_b_total. Qed.
+Print Assumptions C05_traverse_check_string_fuel_is_enough.
